@@ -4,7 +4,7 @@
 cd /verif
 ids=${@:-C01 C02 C03 C04 C05 C06 C07 C08 C09 C10 C11 C12 C13 C14 C15 C16 C17 C18 C19 C20}
 for id in $ids; do
-  for m in m1 m2 m3 m4 m5 m6; do
+  for m in ${MS:-m1 m2 m3 m4 m5 m6}; do
     d=/verif/seeded/$id/$m/patch.diff
     [ -f "$d" ] || continue
     git -C /repo apply "$d" || { echo "$id $m APPLY-FAILED"; continue; }
